@@ -328,7 +328,7 @@ func c07Run(p c07Plan) *common.Fail {
 	}
 	switch p.Mode {
 	case "storm":
-		f, _, _ := roundTripStorms(allTypes(), [][]byte{{0x41, 0x7e}, {0xe9, 0xfc}, {0x01, 0x30}, {0x20, 0xa0}, {0x5a, 0x00}}, 400)
+		f, _, _ := roundTripStorms(allTypes(), [][]byte{{0x41, 0x7e}, {0xe9, 0xfc}, {0x01, 0x30}, {0x20, 0xa0}, {0x5a, 0x00}}, 1000)
 		return f
 	case "float":
 		if ti.Kind != reflect.Float32 {
@@ -663,11 +663,11 @@ func TestC07(t *testing.T) {
 	// encoding is a function of the value, also when other goroutines encode their own values at the same moment (per
 	// main number, 8 goroutines with their own instances; every encoding and rendering compared with the one made alone)
 	if rec.Env.Shard == 0 {
-		f, first, storms := roundTripStorms(types, [][]byte{{0x41, 0x7e}, {0xe9, 0xfc}, {0x01, 0x30}, {0x20, 0xa0}, {0x5a, 0x00}}, 400)
+		f, first, storms := roundTripStorms(types, [][]byte{{0x41, 0x7e}, {0xe9, 0xfc}, {0x01, 0x30}, {0x20, 0xa0}, {0x5a, 0x00}}, 1000)
 		if f != nil {
 			common.Report(t, rec, f, c07Plan{Type: first, Mode: "storm"})
 		}
-		rec.Eval(storms * 8 * 400 * 2)
+		rec.Eval(storms * 8 * 1000 * 2)
 		rec.ClassN("concurrent-encode-storms", storms)
 	}
 	// rapid part ------------------------------------------------------------------------------------------
